@@ -10,6 +10,7 @@
   alignment of whole help texts on a common column is carried by the byte-exact correspondence
   and the geometry oracles of the harness, not by a theorem.
 -/
+import GoFlags.Props.C17.Facts
 import GoFlags.Help
 import GoFlags.Lemmas.WrapLemmas
 
